@@ -89,6 +89,7 @@ pub fn parse_decls(t: &Text) -> (r: Result<Vec<Decl>, ParseErr>)
 // MECHANICALLY into this function -- body = the block's text, `break 'field_count X` -> `return X`,
 // `parse_autosql(&autosql)` -> `parse_decls(autosql)`; write_pre below calls it where the block stood.
 //@extract method bigtools/src/bbi/bigbedwrite.rs write_pre "^impl<W: Write \+ Seek \+ Send \+ 'static> BigBedWrite<W>"
+//@rule R16
 //@presub /\A.*?\n([ \t]*)let field_count = 'field_count: \{(.*?)\n\1\};.*\Z/ => pub fn schema_field_count(autosql: &Text) -> Option<usize> {\2\n} min=1 count=1
 //@presub /break 'field_count ([^;]*);/ => return \1; min=0
 //@sub /parse_autosql\(&autosql\)/ => parse_decls(autosql) min=0
@@ -168,6 +169,7 @@ pub proof fn lemma_bb_layout(d0: Seq<u8>, t: Seq<u8>)
 
 // ---- write_blank_headers (contract as in unit hdr; verified here again because write_pre calls it) ----
 //@extract fn bigtools/src/bbi/bbiwrite.rs write_blank_headers
+//@rule R16
 //@rule R3 min=3
 //@rule R8
 //@sub /<W: Write \+ Seek \+ Send \+ 'static>\(\s*file: &mut BufWriter<W>,/ => (file: &mut FSink, min=1
@@ -196,9 +198,10 @@ pub proof fn lemma_bb_layout(d0: Seq<u8>, t: Seq<u8>)
 pub struct BigWigWrite {}
 impl BigWigWrite {
 //@extract method bigtools/src/bbi/bigwigwrite.rs write_pre "^impl<W: Write \+ Seek \+ Send \+ 'static> BigWigWrite<W>"
+//@rule R16
 //@rule R3 min=2
 //@rule R8
-//@sub /\(file: &mut BufWriter<W>\)/ => (file: &mut FSink) min=1
+//@sub /\(\s*file: &mut BufWriter<W>/ => (file: &mut FSink min=1
 //@sub /\.pos\(\)\?/ => .tell()? min=0
 //@sub /\.put_bytes\(/ => .put( min=0
 //@ret r
@@ -245,12 +248,14 @@ impl BigWigWrite {
 pub struct BigBedWrite {}
 impl BigBedWrite {
 //@extract method bigtools/src/bbi/bigbedwrite.rs write_pre "^impl<W: Write \+ Seek \+ Send \+ 'static> BigBedWrite<W>"
+//@rule R16
 //@rule R3 min=3
 //@rule R8
 //@presub /\n([ \t]*)let field_count = 'field_count: \{.*?\n\1\};/ => \n\1let field_count = schema_field_count(&autosql); min=1 count=1
 //@presub /autosql\.unwrap_or_else\(\|\| crate::bed::autosql::BED3\.to_string\(\)\)/ => text_or_bed3(autosql) min=1 count=1
 //@presub /CString::new\(autosql\.into_bytes\(\)\)\.map_err\(\|_\| \{\s*ProcessDataError::InvalidInput\("Invalid autosql: null byte in string"\.to_owned\(\)\)\s*\}\)\?;/ => match CStr::new(autosql.into_bytes()) { Ok(c) => c, Err(_) => return Err(ProcessDataError::InvalidInput(Msg {})) }; min=1 count=1
-//@sub /file: &mut BufWriter<W>,\s*autosql: Option<String>,/ => file: &mut FSink, autosql: Option<Text>, min=1
+//@sub /file: &mut BufWriter<W>,/ => file: &mut FSink, min=1
+//@sub /autosql: Option<String>,/ => autosql: Option<Text>, min=1
 //@sub /\.pos\(\)\?/ => .tell()? min=0
 //@sub /\.put_bytes\(/ => .put( min=0
 //@ret r
